@@ -4,6 +4,7 @@ import DicomModel.Model.TagText
 import DicomModel.Model.Rle
 import DicomModel.Model.Pdu
 import DicomModel.Model.Partial
+import DicomModel.Model.Guard
 import Driver.Loop
 open Dicom
 
@@ -83,9 +84,10 @@ def predict (kind arg : String) (data : Bytes) : List (String × String) :=
         let P : Rle.Params := ⟨rows, cols, spp, bits⟩
         let frags := parseFrags (data.length + 1) data
         if ts == "1.2.840.10008.1.2.5" ∧ P.frameSize * (frags.length + 1) ≤ 200000 then
-          [("all", rleClass (Rle.decodeAll P frags [])),
-           ("frame", rleClass (Rle.decodeFrame P frags 0 [])),
-           ("framelast", rleClass (Rle.decodeFrame P frags (frames - 1) [7, 7, 7]))]
+          -- the decoder as repaired by af5f450 (`Model/Guard.lean`)
+          [("all", rleClass (Guard.decodeAllFixed P frags [])),
+           ("frame", rleClass (Guard.decodeFrameFixed P frags 0 [])),
+           ("framelast", rleClass (Guard.decodeFrameFixed P frags (frames - 1) [7, 7, 7]))]
         else []
       | _, _, _, _, _ => []
     | _ => []
